@@ -109,7 +109,15 @@ def ops_worker(job):
             else:
                 def gen():
                     for _ in range(per):
-                        yield tuple((rnd.choice(opcases.int_classes(bl, rnd)) if s == "i" else rnd.randint(0, 1)) for s in islots)
+                        v = [(rnd.choice(opcases.int_classes(bl, rnd)) if s == "i" else rnd.randint(0, 1)) for s in islots]
+                        if rnd.random() < 0.08 and "i" in islots:
+                            # operands that wrap around the field: equal / small in the field, far apart as integers
+                            ii = [j for j, s in enumerate(islots) if s == "i"]
+                            j = rnd.choice(ii)
+                            base = v[rnd.choice(ii)] if rnd.random() < 0.6 else rnd.randint(-3, 3)
+                            v[j] = base + rnd.choice([1, -1, 2, -3]) * p
+                            R.count("field_wrapping_operand_vectors")
+                        yield tuple(v)
                 vectors = gen()
             for ins in vectors:
                 one(R, G, model, N, prog, chunks, case, list(ins), p, tid, bl)
@@ -140,7 +148,8 @@ def one(R, G, model, N, prog, chunks, case, ins, p, tid, bl):
                 case.expr, ins, ref.exc), **det)
         return
     if out.exc is not None:
-        if ref.flags:
+        if ref.flags or any(isinstance(v, int) and abs(v) > p // 4 for v in ins):
+            # outside the documented domain (a value that does not fit any bitlength is far outside it): raising is allowed
             R.count("raised_outside_inner_domain")
             R.case(cell="%s|bl%d|outside" % (tid, bl), key=key)
         else:
